@@ -183,6 +183,10 @@ func body(ctx context.Context, n *NodeSpec, tag string, in string) (string, erro
 	if n.PS {
 		if err := compose.ProcessState[*GState](ctx, func(ctx context.Context, st *GState) error {
 			critical(ctx, st, "ps:"+tag)
+			if n.Fault == "pspanic" {
+				// the state handler itself panics: the node fails, the state stays usable for everybody else
+				panic("injected panic in the state handler of " + tag)
+			}
 			return nil
 		}); err != nil {
 			return "", err
@@ -197,7 +201,7 @@ func body(ctx context.Context, n *NodeSpec, tag string, in string) (string, erro
 			env.Cancel()
 		}
 		return "", fmt.Errorf("wrapped: %w", &InjectedError{Node: tag, EOF: n.FaultEOF})
-	case "panic":
+	case "panic", "pspanic":
 		panic("injected panic in " + tag)
 	case "cancel":
 		if env.Cancel != nil {
